@@ -474,6 +474,13 @@ pub fn eval(ctx: &Ctx, case: &Case) {
             let (k, l) = (hb(k), hb(l));
             let (pt, r) = g1rep(&k, &l);
             let cls = repc(&l);
+            // equality against the infinities the library itself produces (zero(), P - P, [N]P, g_mul(0))
+            {
+                let infs: Vec<(&str, Point)> = vec![("zero()", Point::zero()), ("P-P", pt.point_sub(&pt)), ("[N]P", pt.point_mul(&to_limbs(&pr.n))), ("g_mul(0)", Point::g_mul(&[0, 0, 0, 0]))];
+                for (name, o) in &infs {
+                    check!(ctx, "G1 Point::point_equals", format!("library-infinity:{}/{}", name, cls), cj, (pt.point_equals(o), o.point_equals(&pt), o.is_zero()), (r.is_none(), r.is_none(), true), |b: &(bool, bool, bool)| format!("{:?}", b));
+                }
+            }
             check!(ctx, "G1 Point::point_double", cls, cj, ref_g1(&pt.point_double()), sm9::g1_add(&r, &r), g1_str);
             check!(ctx, "G1 Point::point_neg", cls, cj, ref_g1(&pt.point_neg()), pr.e1.neg(&r), g1_str);
             check!(ctx, "G1 Point::is_zero", cls, cj, pt.is_zero(), r.is_none(), |b: &bool| b.to_string());
@@ -561,6 +568,12 @@ pub fn eval(ctx: &Ctx, case: &Case) {
             let (k, l) = (hb(k), h2(l));
             let (pt, r) = g2rep(&k, &l);
             let cls = repc2(&l);
+            {
+                let infs: Vec<(&str, TwistPoint)> = vec![("zero()", TwistPoint::zero()), ("P-P", pt.point_sub(&pt)), ("[N]P", pt.point_mul(&to_limbs(&pr.n))), ("g_mul(0)", TwistPoint::g_mul(&[0, 0, 0, 0]))];
+                for (name, o) in &infs {
+                    check!(ctx, "G2 TwistPoint::point_equals", format!("library-infinity:{}/{}", name, cls), cj, (pt.point_equals(o), o.point_equals(&pt)), (r.is_none(), r.is_none()), |b: &(bool, bool)| format!("{:?}", b));
+                }
+            }
             check!(ctx, "G2 TwistPoint::point_double", cls, cj, ref_g2(&pt.point_double()), sm9::g2_add(&r, &r), g2_str);
             check!(ctx, "G2 TwistPoint::point_neg", cls, cj, ref_g2(&pt.point_neg()), pr.e2.neg(&r), g2_str);
         }
@@ -629,7 +642,7 @@ pub fn run(ctx: &Arc<Ctx>) {
     let _ = frob_images();
     let pr = sm9::params();
     let (pp, n) = (pr.p.clone(), pr.n.clone());
-    ctx.set_rule("Fp and mod N: limb-pattern + boundary alphabets, unary ops on all, binary ops on all x extreme (thorough all x all). Fp2: all 24x24 boundary elements, unary on all, binary on all pairs. Fp4: all 6^4 elements over {0,1,p-1,2,seeded x2}, unary on all, binary on all x 64 (thorough all pairs). Fp12: one element per subset of zero components (4096) + basis + +-1: unary ops (sqr, inv, neg, double, triple, div2, Frobenius 1/2/3/6, to_bytes) on all, pow with boundary exponents, mul/add/sub against 64 partners, sparse line multiplication with every zero pattern of its 3 coefficients. Booth recoding for w in {5,7}: every k < 2^16, every d*2^(wi) and 2^(w(i+1)) - d*2^(wi). G1/G2: [j]P x 4 Jacobian representations + infinity (j incl. lambda, lambda^2 with lambda^2+lambda+1 = 0 mod N: different points with the same y), all ordered pairs through add / sub / add_full / equality, unary ops, scalar multiplication over every Booth (window, digit) combination, boundary scalars, the point at infinity as the base, and every scalar within 300 (thorough 1200) of 0 and of N, all 37x64 fixed-base table entries. Oracle: polynomial-basis Fp12 = Fp[w]/(w^12+2) and affine big-integer group law.");
+    ctx.set_rule("Fp and mod N: limb-pattern + boundary alphabets, unary ops on all, binary ops on all x extreme (thorough all x all). Fp2: all 24x24 boundary elements, unary on all, binary on all pairs. Fp4: all 6^4 elements over {0,1,p-1,2,seeded x2}, unary on all, binary on all x 64 (thorough all pairs). Fp12: one element per subset of zero components (4096) + basis + +-1: unary ops (sqr, inv, neg, double, triple, div2, Frobenius 1/2/3/6, to_bytes) on all, pow with boundary exponents and exponents with long runs of one bits, mul/add/sub against 64 partners, sparse line multiplication with every zero pattern of its 3 coefficients. Booth recoding for w in {5,7}: every k < 2^16, every d*2^(wi) and 2^(w(i+1)) - d*2^(wi). G1/G2: [j]P x 4 Jacobian representations + infinity (j incl. lambda, lambda^2 with lambda^2+lambda+1 = 0 mod N: different points with the same y), all ordered pairs through add / sub / add_full / equality, equality against the infinities the library itself produces (zero(), P-P, [N]P, g_mul(0)), unary ops, scalar multiplication over every Booth (window, digit) combination, boundary scalars, the point at infinity as the base, and every scalar within 300 (thorough 1200) of 0 and of N, all 37x64 fixed-base table entries. Oracle: polynomial-basis Fp12 = Fp[w]/(w^12+2) and affine big-integer group law.");
     let mut cases: Vec<Case> = Vec::new();
     let hx = |x: &BigUint| hexbig(x);
     let mut g = SplitMix::new(ctx.seed, "c13");
@@ -757,6 +770,29 @@ pub fn run(ctx: &Arc<Ctx>) {
             }
         }
     }
+    {
+        let ones_runs: Vec<BigUint> = {
+        // runs of one bits: 2^k - 1 and 64 / 56 consecutive ones at several offsets (a "+1" that must ripple across
+        // limbs in a signed-digit recoding, a bit length taken through floating point, a window that is all ones)
+        let one = BigUint::one();
+        let mut v: Vec<BigUint> = Vec::new();
+        for k in [49u32, 56, 63, 64, 65, 112, 127, 128, 129, 191, 192, 193, 255] {
+            v.push((&one << k) - &one);
+        }
+        for s in [1u32, 13, 48, 64, 100, 128, 150, 190] {
+            v.push(((&one << 64u32) - &one) << s);
+            v.push(((&one << 56u32) - &one) << s);
+        }
+        v
+    };
+        for a in el12.iter().step_by(512) {
+            for e in ones_runs.iter().filter(|e| **e < n) {
+                let mut b = z12.clone();
+                b[0] = e.clone();
+                cases.push(Case::Fp12 { op: "pow".into(), a: s12(a), b: s12(&b) });
+            }
+        }
+    }
     for a in el12.iter().step_by(64) {
         // exponents incl. zero 64-bit limbs below non-zero ones (a skipped limb loses 64 squarings)
         for e in [BigUint::zero(), BigUint::one(), BigUint::from(2u32), &n - 1u32, &n - 2u32, g.below(&(&n - 2u32)), BigUint::one() << 64usize, (BigUint::one() << 128usize) + 1u32, (BigUint::one() << 192usize) + (BigUint::from(7u32) << 64usize), (BigUint::from(0x1234u32) << 192usize) + 15u32] {
@@ -853,6 +889,23 @@ pub fn run(ctx: &Arc<Ctx>) {
     }
     for (t, v) in [("N-1", &n - 1u32), ("N", n.clone()), ("N+1", &n + 1u32), ("2^256-1", (BigUint::one() << 256usize) - 1u32)] {
         sc1.push((t.into(), v));
+    }
+    let ones_runs: Vec<BigUint> = {
+        // runs of one bits: 2^k - 1 and 64 / 56 consecutive ones at several offsets (a "+1" that must ripple across
+        // limbs in a signed-digit recoding, a bit length taken through floating point, a window that is all ones)
+        let one = BigUint::one();
+        let mut v: Vec<BigUint> = Vec::new();
+        for k in [49u32, 56, 63, 64, 65, 112, 127, 128, 129, 191, 192, 193, 255] {
+            v.push((&one << k) - &one);
+        }
+        for s in [1u32, 13, 48, 64, 100, 128, 150, 190] {
+            v.push(((&one << 64u32) - &one) << s);
+            v.push(((&one << 56u32) - &one) << s);
+        }
+        v
+    };
+    for v in &ones_runs {
+        sc1.push(("runs-of-ones".into(), v.clone()));
     }
     // multiples whose last ladder step adds two different points with the same y
     for (t, v) in [("lambda", lambda.clone()), ("lambda^2", lambda2.clone()), ("N-lambda", &n - &lambda), ("64*lambda^2", (BigUint::from(64u32) * &lambda2) % &n), ("64*lambda", (BigUint::from(64u32) * &lambda) % &n), ("32*lambda", (BigUint::from(32u32) * &lambda) % &n), ("lambda+1", &lambda + 1u32), ("lambda-1", &lambda - 1u32)] {
